@@ -15,6 +15,7 @@ EXPLANATION = (
     "connected_components of that matrix with weak/undirected connectivity, and every event is appended exactly once, "
     "in input order, to the sequence of its label; the result is the list of those sequences. scipy's component "
     "labelling (and the empty-input case, which depends on scipy accepting a 0x0 matrix) is trusted / not decided."
+    'R13.3 also reads the two-stage form (one plain list per label created on first sight, wrapped into sequences afterwards). '
 )
 ASSUMPTIONS = ["scipy.sparse.csgraph.connected_components labels the weakly connected components of the given matrix (trusted)"]
 
